@@ -89,7 +89,7 @@ func claimLine(v int, chain, nonce int64, sender string, recv int, amount, symbo
 
 // directedOracle: the histories named in 4/C05
 func directedOracle() []hist {
-	var hs []hist
+	var hs, front []hist
 	// F2 shape: three validators of power 10; B claims; the admin removes B and C, re-adds C; A claims the same
 	{
 		var h hist
@@ -160,6 +160,21 @@ func directedOracle() []hist {
 		h.add("tx claim 2 1 11 %s 4 9 eth %s 2", snd0, tok0)
 		hs = append(hs, h)
 	}
+	// transactions of two messages: the whitelist edit of a transaction whose later message fails is discarded with it —
+	// the validator it tried to add (power 8 of 10) is not whitelisted for the claims that follow in the same block
+	for _, second := range []string{"wl 3 delete 0", "wl 4 add 0", "pause 3 0"} {
+		var h hist
+		stdSetup(&h, []int64{1, 1, 8}, nil, "0,1")
+		h.add("txm wl 3 add 2 | %s", second)
+		h.add(claimLine(2, 1, 12, snd0, 4, "9", "eth", tok0, 2))
+		h.add(claimLine(0, 1, 12, snd0, 4, "9", "eth", tok0, 2))
+		h.add("txm wl 3 remove 1 | %s", second)
+		h.add(claimLine(1, 1, 12, snd0, 4, "9", "eth", tok0, 2))
+		h.add("blk")
+		h.add(claimLine(2, 1, 13, snd0, 4, "9", "eth", tok0, 2))
+		h.add(claimLine(1, 1, 13, snd0, 4, "9", "eth", tok0, 2))
+		front = append(front, h) // run first: see the end of the function
+	}
 	// zero total power, zero-power claimant, whitelist with duplicates
 	{
 		var h hist
@@ -170,7 +185,7 @@ func directedOracle() []hist {
 		h.add(claimLine(2, 1, 10, snd0, 4, "9", "eth", tok0, 2))
 		hs = append(hs, h)
 	}
-	return hs
+	return append(front, hs...)
 }
 
 func directedCredit() []hist {
@@ -246,6 +261,20 @@ func directedCredit() []hist {
 		h.add(claimLine(0, 1, 63, snd0, 5, "7", "usdc", tok1, 2))
 		h.add(claimLine(1, 1, 63, snd0, 5, "7", "usdc", tok1, 2))
 		h.add(claimLine(2, 1, 61, snd0, 4, "10", "eth", tok0, 2))
+		hs = append(hs, h)
+	}
+	// symbols that differ in case only or carry a leading c: each lock is credited in exactly "c" + the claimed symbol
+	{
+		var h hist
+		stdSetup(&h, []int64{50, 50}, nil, "0,1")
+		for i, sym := range []string{"usdc", "USDC", "Usdc", "cusdc", "eth", "ceth", "ETH", "cUSDC"} {
+			h.add("tx claim 0 1 %d %s 4 %d %s %s 2", 70+i, snd0, 17+i, sym, symToken(sym))
+			h.add("tx claim 1 1 %d %s 4 %d %s %s 2", 70+i, snd0, 17+i, sym, symToken(sym))
+		}
+		h.add("tx claim 0 1 80 %s 5 5 USDC %s 1", snd0, tok1) // burn claims: credited in the claimed symbol itself
+		h.add("tx claim 1 1 80 %s 5 5 USDC %s 1", snd0, tok1)
+		h.add("tx claim 0 1 81 %s 5 5 cusdc %s 1", snd0, tok1)
+		h.add("tx claim 1 1 81 %s 5 5 cusdc %s 1", snd0, tok1)
 		hs = append(hs, h)
 	}
 	return hs
@@ -424,6 +453,13 @@ func randomHistory(rng *Rng, profile string) hist {
 		contents    []string // "recv amount symbol token type"
 	}
 	nev := 1 + rng.Intn(3)
+	// in a third of the credit histories all events use symbols of one family (differing in case only, prefixes of one
+	// another, starting with the pegged prefix): several of them get credited in the same history
+	var caseFam []string
+	if profile == "credit" && rng.Chance(1, 3) {
+		caseFam = caseFamilies[rng.Intn(len(caseFamilies))]
+		nev = 3
+	}
 	evs := make([]event, nev)
 	for i := range evs {
 		e := &evs[i]
@@ -435,8 +471,11 @@ func randomHistory(rng *Rng, profile string) hist {
 			recv := 3 + rng.Intn(bNAccts-3)
 			amount := rng.Amount(100).String()
 			sym := symPool[rng.Intn(3)]
-			if rng.Chance(1, 6) {
+			if rng.Chance(1, 6) || caseFam != nil {
 				fam := caseFamilies[rng.Intn(len(caseFamilies))]
+				if caseFam != nil {
+					fam = caseFam
+				}
 				sym = fam[rng.Intn(len(fam))]
 			}
 			typ := 2
@@ -477,6 +516,31 @@ func randomHistory(rng *Rng, profile string) hist {
 	for k := 0; k < nops; k++ {
 		if rng.Chance(1, 30) {
 			h.add("restart") // restart from the exported genesis; claims are re-sent afterwards by the ordinary draws
+			continue
+		}
+		if rng.Chance(1, 40) {
+			h.add("blk") // next block
+			continue
+		}
+		if rng.Chance(1, 18) {
+			// an administrative transaction of two messages (one cache context, written only if both succeed): a
+			// whitelist edit followed by a message that fails or succeeds; then the validator concerned claims
+			v := rng.Intn(nv)
+			first := fmt.Sprintf("wl 3 %s %d", []string{"add", "remove"}[rng.Intn(2)], v)
+			second := []string{
+				fmt.Sprintf("wl 3 delete %d", rng.Intn(nv)), // invalid operation type: fails in the handler
+				fmt.Sprintf("wl 4 add %d", rng.Intn(nv)),    // not the admin
+				"rescue 3 1 5",                              // blocked receiver
+				fmt.Sprintf("pause 3 %d", rng.Intn(2)),      // succeeds
+				fmt.Sprintf("wl 3 add %d", rng.Intn(nv)),    // succeeds
+				"pause 4 1",                                 // not an admin
+			}[rng.Intn(6)]
+			if rng.Chance(1, 5) {
+				first, second = second, first
+			}
+			h.add("txm %s | %s", first, second)
+			e := evs[rng.Intn(nev)]
+			h.add("tx claim %d %d %d %s %s", v, e.chain, e.nonce, e.sender, e.contents[0])
 			continue
 		}
 		r := rng.Intn(100)
@@ -655,6 +719,7 @@ func sp(rng *Rng, alias int, den int) string {
 // claim symbols whose pegged denominations collide case-insensitively or by prefix with one another, or start with the
 // pegged prefix themselves
 var caseFamilies = [][]string{
+	{"usdc", "USDC", "Usdc", "cusdc", "usd", "cUSDC"},
 	{"usdt", "USDT", "Usdt", "uSDT", "usd", "usdtx", "cusdt"},
 	{"eth", "ETH", "Eth", "et", "ceth"},
 	{"dai", "DAI", "Dai", "daix", "cc", "cdai"},
